@@ -378,8 +378,10 @@ class Ref:
             if 'i18n_context' in node:
                 st['context'] = node['i18n_context']
             if 'i18n_target' in node:
+                # docs: "If the value is ``default``, the language negotiation services will be used" -- the
+                # language the render call asked for (None: negotiate), not that of an enclosing i18n:target
                 st['target'] = eval(self.codes[node['i18n_target']], {'__builtins__': _builtins},
-                                    dict(scope.flatten(), default=self.i18n[-1]['target']))
+                                    dict(scope.flatten(), default=self.i18n[0]['target']))
             self.i18n.append(st)
             pushed = True
         try:
